@@ -207,7 +207,28 @@ func runC06(c *sim.Ctx) *sim.Violation {
 	}
 	stream = append(stream, trailing...)
 	dataEOF := t.Bool(1, 2)
+	// One stream in six does not end: the transport FAILS with an error E exactly on
+	// the last byte of one of the frames - reported together with those last bytes
+	// or by the next Read. Every frame up to there was delivered in full: each is
+	// returned as if nothing had happened (the result depends on the frame's bytes
+	// only), and the call after them gets E.
+	var cutE *link.FaultErr
+	if t.Bool(1, 6) {
+		j := t.Int(len(frames))
+		end := 0
+		for _, f := range frames[:j+1] {
+			end += len(f)
+		}
+		frames, kinds = frames[:j+1], kinds[:j+1]
+		stream, trailing = stream[:end], nil
+		cutE, _ = link.NewFaultErr(c, fmt.Sprintf("link failure #%d on a frame boundary", c.Seq()))
+		c.Count(fmt.Sprintf("fault.transport-error-on-the-last-byte-of-a-frame(with-the-data=%v)", dataEOF))
+	}
 	r := link.NewReader(c, stream, link.Mode{DataEOF: dataEOF})
+	if cutE != nil {
+		r.CutAt(len(stream), cutE.Wire())
+		r.EndErr = cutE.Wire()
+	}
 	// One run in four, the program reads through a bufio.Reader (as most real
 	// connection loops do); consumption is then the position in the stream:
 	// bytes the link handed out minus bytes still sitting in bufio's buffer.
@@ -228,7 +249,7 @@ func runC06(c *sim.Ctx) *sim.Violation {
 		c.Count("probe.read-from-a-closable-connection")
 	}
 	framesTotal := len(stream) - len(trailing)
-	if rd == io.Reader(r) && t.Bool(1, 4) {
+	if rd == io.Reader(r) && cutE == nil && t.Bool(1, 4) {
 		// through one of the standard library's pass-through readers; a limit, if any,
 		// ends on the last frame's last byte, inside the trailing bytes, or just past them
 		var how string
@@ -299,7 +320,13 @@ func runC06(c *sim.Ctx) *sim.Violation {
 		return sim.V("C06/sequence/trailing-bytes-touched", "after %d calls for %d frames %d bytes of the stream were consumed, frames total %d",
 			len(frames), len(frames), consumed(), framesTotal)
 	}
-	if len(trailing) == 0 {
+	if cutE != nil {
+		got := ReadOne(rd)
+		if got.Kind != "error" || !errors.Is(got.Err, cutE.E()) {
+			return sim.V("C06/sequence/transport-error-after-last-frame-not-reported", "the transport failed with E on the last byte of the last frame (together with the data: %v); after the %d complete frames were returned the next ReadPacket gave %s; want an error wrapping E", dataEOF, len(frames), got)
+		}
+		c.Count("probe.transport-error-reported-after-the-complete-frames")
+	} else if len(trailing) == 0 {
 		got := ReadOne(rd)
 		if got.Kind != "error" || !errors.Is(got.Err, io.EOF) {
 			return sim.V("C06/sequence/no-io.EOF-after-last-frame", "after the last frame of the stream ReadPacket gave %s; want an error wrapping io.EOF", got)
